@@ -284,6 +284,23 @@ class G:
         return "\n\n".join(out) + "\n", "\n".join(ops) + "\n"
 
 
+def from_types(name: str, types_sdl: str, seed: int, snake: bool = True, notes=None) -> scenario.Scenario:
+    """a scenario around hand-written input/enum/scalar definitions (corpus entries): Query and operations are added"""
+    from graphql import InputObjectTypeDefinitionNode
+
+    names = [d.name.value for d in parse(types_sdl).definitions if isinstance(d, InputObjectTypeDefinitionNode)]
+    q, ops = [], []
+    for n in names:
+        q.append(f"  take{n}(arg: {n}): Int")
+        q.append(f"  need{n}(arg: {n}!, extra: [{n}!]): Int")
+        ops.append(f"query Take{n}($arg: {n}) {{ take{n}(arg: $arg) }}")
+        ops.append(f"query Need{n}($arg: {n}!, $extra: [{n}!]) {{ need{n}(arg: $arg, extra: $extra) }}")
+    sdl = types_sdl + "\n\ntype Query {\n" + "\n".join(q) + "\n}\n"
+    return scenario.Scenario(seed=seed, sdl=sdl, queries="\n".join(ops) + "\n",
+                             config={"convert_to_snake_case": snake, "async_client": False},
+                             features=("corpus",), files={}, notes=dict(notes or {}, corpus=name))
+
+
 def default_cycle(sdl: str):
     """Static check, no schema build: does resolving the fields of some input type need (through default literals
     that contain object values) the fields of the same type again?  Returns the offending type name or None.
